@@ -335,6 +335,13 @@ func (n *AbsfsNFS) UpdateExportOptions(newOptions ExportOptions) error {
 		return fmt.Errorf("nil server")
 	}
 
+	// Validate immutable fields before changing anything: a rejected update
+	// must leave the whole configuration untouched.
+	// Squash cannot be changed at runtime.
+	if newOptions.Squash != "" && newOptions.Squash != n.policy.Load().Squash {
+		return fmt.Errorf("cannot change Squash mode at runtime (requires restart)")
+	}
+
 	// Apply tuning changes (lock-free, immediate).
 	// Use tuningFromExportOptions for complete field coverage.
 	// Preserve Timeouts and Log from the current snapshot when not provided,
@@ -350,12 +357,7 @@ func (n *AbsfsNFS) UpdateExportOptions(newOptions ExportOptions) error {
 		*t = *newTuning
 	})
 
-	// Validate immutable fields before attempting policy update.
-	// Squash cannot be changed at runtime.
 	currentPolicy := n.policy.Load()
-	if newOptions.Squash != "" && newOptions.Squash != currentPolicy.Squash {
-		return fmt.Errorf("cannot change Squash mode at runtime (requires restart)")
-	}
 
 	// Apply policy changes (drain-and-swap)
 	newPolicy := PolicyOptions{
